@@ -1,8 +1,189 @@
-(** C14 — Join / Getw / Slice (placeholder: the refuted legacy statement only; replaced when the proofs land) *)
+(** C14 — Join/Getw pack fixed-width words losslessly; Slice copies a bit range.
+    Only the property theorems (each closed by [exact]), their axiom audit and
+    non-vacuity examples.  Vocabulary (Spec/JoinSpec.v): [cdiv64 n = (n+63)/64],
+    [packed vs w] = the low [w] bits of every value one after the other,
+    [zeros n] = [n] false bits, [flat] = the bit sequence of a bitmap.
+
+    Sizes: the model computes positions in unbounded [Z]; Go's int / int32 agree
+    while 64*len < 2^31 (DESIGN section 3) — the theorems themselves carry no size bound.
+    Values need not even be in [0,2^64): [Join] masks them first.
+
+    Frame condition ("leaving the input unchanged"): the model's functions are pure —
+    [Join]/[Slice] receive an immutable list and return a new one — so the clause holds of
+    the model by construction and needs no theorem; on the implementation it is checked by
+    the before/after comparison of the correspondence run (flag 1 in the observation). *)
 From Coq Require Import ZArith List Bool Lia.
-From Low Require Import Lib.Bits Lib.BitSeq Model.BitmapJoin Model.LegacyBitmap Spec.JoinSpec.
+From Low Require Import Lib.MachInt Lib.Bits Lib.BitSeq Model.BitmapJoin Model.LegacyBitmap Spec.JoinSpec
+  Proofs.JoinProofs Model.BitmapMask Spec.MaskSpec Model.BitmapGetw32 Spec.GetwSpec Proofs.GetwProofs
+  Model.BitmapOf Model.BitmapSliceArray Spec.SliceArraySpec Proofs.SliceArrayProofs
+  Model.BitmapFmt Spec.FmtSpec Proofs.FmtProofs Proofs.SliceLaws
+  Model.Rank Model.BitmapNext Spec.NextSpec Spec.SliceComposeSpec Proofs.SliceCompose.
 Import ListNotations.
 Open Scope Z_scope.
+
+(** Join(values, w) never panics for a legal width and returns ceil(len*w/64) words whose bits are
+    the low w bits of the values in order, followed by zeros ("no other bit is set"). *)
+Theorem C14_Join : forall vs w, width_ok w ->
+  exists r, Join vs w = Some r /\
+    words_ok r /\ zlen r = cdiv64 (zlen vs * w) /\
+    flat r = packed vs w ++ zeros (64 * zlen r - zlen vs * w).
+Proof. exact Join_spec_holds. Qed.
+Print Assumptions C14_Join.
+
+(** [packed] with the truncation written out, as in DESIGN section 6 *)
+Theorem C14_packed_mod : forall vs w, 0 <= w ->
+  packed vs w = concat (map (fun v => bits (Z.to_nat w) (v mod 2 ^ w)) vs).
+Proof. exact packed_mod. Qed.
+Print Assumptions C14_packed_mod.
+
+(** Getw(Join(values, w), i, w) = values[i] mod 2^w for every index *)
+Theorem C14_Getw_Join : forall vs w, width_ok w ->
+  exists r, Join vs w = Some r /\
+    forall i, 0 <= i < zlen vs -> Getw r i w = Some (nth (Z.to_nat i) vs 0 mod 2 ^ w).
+Proof. exact Getw_Join. Qed.
+Print Assumptions C14_Getw_Join.
+
+(** Slice(words, from, to) never panics on 0 <= from <= to <= 64*len and returns ceil((to-from)/64)
+    words whose bits are bits [from, to) of the input followed by zeros. *)
+Theorem C14_Slice : forall ws from to, words_ok ws -> 0 <= from <= to -> to <= 64 * zlen ws ->
+  exists r, Slice ws from to = Some r /\
+    words_ok r /\ zlen r = cdiv64 (to - from) /\
+    flat r = firstn (Z.to_nat (to - from)) (skipn (Z.to_nat from) (flat ws))
+             ++ zeros (64 * zlen r - (to - from)).
+Proof. exact Slice_spec_holds. Qed.
+Print Assumptions C14_Slice.
+
+(** the same, bit by bit, in the words of the property *)
+Theorem C14_Slice_bitwise : forall ws from to, words_ok ws -> 0 <= from <= to -> to <= 64 * zlen ws ->
+  exists r, Slice ws from to = Some r /\ zlen r = cdiv64 (to - from) /\
+    (forall j, 0 <= j < to - from -> bitz (flat r) j = bitz (flat ws) (from + j)) /\
+    (forall j, to - from <= j -> bitz (flat r) j = false).
+Proof. exact Slice_bitwise. Qed.
+Print Assumptions C14_Slice_bitwise.
+
+(** the boolean checkers that judge the implementation's output in the correspondence run decide
+    exactly the specification, and the specification allows one result only *)
+Theorem C14_checkers : forall vs w ws from to r,
+  (spec_Join_ok vs w r = true <-> spec_Join vs w r) /\
+  (spec_Slice_ok ws from to r = true <-> spec_Slice ws from to r).
+Proof. exact (fun vs w ws from to r => conj (spec_Join_ok_iff vs w r) (spec_Slice_ok_iff ws from to r)). Qed.
+Print Assumptions C14_checkers.
+
+Theorem C14_spec_unique : forall vs w ws from to r r',
+  (spec_Join vs w r -> spec_Join vs w r' -> r = r') /\
+  (spec_Slice ws from to r -> spec_Slice ws from to r' -> r = r').
+Proof. exact (fun vs w ws from to r r' => conj (spec_Join_unique vs w r r') (spec_Slice_unique ws from to r r')). Qed.
+Print Assumptions C14_spec_unique.
+
+(** ** Widening: neighbouring code of the package that Join/Getw/Slice rely on or are combined with *)
+
+(** bitmap/mask.go: the six tables as [initMasks] fills them (uint64 shifts and wraps written out) hold
+    exactly the closed forms of Lib/Bits.v that every model of the package uses for a table read, and a
+    read outside a table panics: [Mask], [RMask] have 65 entries, the other four 64. *)
+Theorem C14_mask_tables : forall j, mask_lookups initMasks j = spec_mask_lookups j.
+Proof. exact mask_tables_correct. Qed.
+Print Assumptions C14_mask_tables.
+
+(** Getw on ANY bitmap and ANY index: the number formed by bits [i*w, i*w+w) of the bitmap, a panic
+    when that window does not lie inside the bitmap (negative index included).  First over unbounded
+    positions, then for the model with Go's int32 product [i *= w], which agrees while i*w fits int32. *)
+Theorem C14_Getw_any : forall bm i w, width_ok w -> words_ok bm ->
+  Getw bm i w = (if (0 <=? i) && (i * w <? 64 * zlen bm)
+                 then Some (val_lsb (firstn (Z.to_nat w) (skipn (Z.to_nat (i * w)) (flat bm)))) else None).
+Proof. exact Getw_any. Qed.
+Print Assumptions C14_Getw_any.
+
+Theorem C14_Getw32_any : forall bm i w, width_ok w -> words_ok bm -> - 2^31 <= i * w < 2^31 ->
+  Getw32 bm i w = spec_Getw_any bm i w.
+Proof. exact Getw32_any. Qed.
+Print Assumptions C14_Getw32_any.
+
+(** the models in unbounded [Z] used by the theorems above are the int32 code while positions fit int32 *)
+Theorem C14_int32_agree : forall bm i w from to,
+  (- 2^31 <= i * w < 2^31 -> Getw32 bm i w = Getw bm i w) /\
+  (0 <= to - from -> to - from + 63 < 2^31 -> Slice32 bm from to = Slice bm from to).
+Proof. exact (fun bm i w from to => conj (Getw32_eq bm i w) (Slice32_eq bm from to)). Qed.
+Print Assumptions C14_int32_agree.
+
+(** lossless in the other direction: splitting a bitmap into its w-bit elements with Getw and joining
+    them again gives the bitmap back *)
+Theorem C14_SplitJoin : forall bm w, width_ok w -> words_ok bm -> 64 * zlen bm < 2^31 ->
+  SplitJoin bm w = Some bm.
+Proof. exact SplitJoin_id. Qed.
+Print Assumptions C14_SplitJoin.
+
+(** Slice seen through ToArray (what the repository's TestSlice observes): the set positions of the
+    slice are the set positions of the input inside [from, to), shifted down by [from].  Uses
+    [ToArray ws = Some (ones (flat ws))], proved here for the model of bitmap/toarray.go. *)
+Theorem C14_ToArray_ones : forall ws, words_ok ws -> ToArray ws = Some (ones (flat ws)).
+Proof. exact ToArray_ones. Qed.
+Print Assumptions C14_ToArray_ones.
+
+Theorem C14_Slice_ToArray : forall ws from to, words_ok ws -> 0 <= from <= to -> to <= 64 * zlen ws ->
+  SliceToArray ws from to =
+    Some (map (fun p => p - from) (filter (fun p => (from <=? p) && (p <? to)) (ones (flat ws)))).
+Proof. exact SliceToArray_correct. Qed.
+Print Assumptions C14_Slice_ToArray.
+
+(** laws users rely on when they combine the functions: the full range is the identity, a slice of a
+    slice is the slice of the composed range, Join at width 64 is the identity *)
+Theorem C14_Slice_full : forall ws, words_ok ws -> Slice ws 0 (64 * zlen ws) = Some ws.
+Proof. exact Slice_full. Qed.
+Print Assumptions C14_Slice_full.
+
+Theorem C14_Slice_Slice : forall ws a b c d, words_ok ws -> 0 <= a <= b -> b <= 64 * zlen ws ->
+  0 <= c <= d -> d <= b - a ->
+  exists r1, Slice ws a b = Some r1 /\ Slice r1 c d = Slice ws (a + c) (a + d).
+Proof. exact Slice_Slice. Qed.
+Print Assumptions C14_Slice_Slice.
+
+Theorem C14_Join_64 : forall vs, words_ok vs -> Join vs 64 = Some vs.
+Proof. exact Join_64. Qed.
+Print Assumptions C14_Join_64.
+
+(** a packed array sliced at element boundaries is the packed sub-list *)
+Theorem C14_Join_Slice : forall vs w k m, width_ok w -> 0 <= k <= m -> m <= zlen vs ->
+  exists R, Join vs w = Some R /\
+    Slice R (k * w) (m * w) = Join (firstn (Z.to_nat (m - k)) (skipn (Z.to_nat k) vs)) w.
+Proof. exact Join_Slice. Qed.
+Print Assumptions C14_Join_Slice.
+
+(** counting and searching inside a slice = counting and searching inside the range of the original
+    (C14 composed with C01 Rank64 and C13 NextOne / PrevOne): for [r = Slice ws a b] and [0 <= j < b-a],
+    Rank64 of [r] at [j] = (1-bits of [ws] in [a, a+j), bit [a+j] of [ws]); NextOne / PrevOne of [r] over
+    [j, b-a) = the first / last 1-bit of [ws] in [a+j, b), minus [a], or -1. *)
+Theorem C14_Slice_Rank64 : forall ws a b tr j, words_ok ws -> 0 <= a <= b -> b <= 64 * zlen ws ->
+  0 <= j < b - a ->
+  SliceRank64 ws a b tr j =
+    Some (rank1z (flat ws) (a + j) - rank1z (flat ws) a, Z.b2z (bitz (flat ws) (a + j))).
+Proof. exact SliceRank64_correct. Qed.
+Print Assumptions C14_Slice_Rank64.
+
+Theorem C14_Slice_NextOne : forall ws a b j, words_ok ws -> 0 <= a <= b -> b <= 64 * zlen ws ->
+  0 <= j < b - a ->
+  SliceNextOne ws a b j = Some (shift_down a (spec_NextOne ws (a + j) b)).
+Proof. exact SliceNextOne_correct. Qed.
+Print Assumptions C14_Slice_NextOne.
+
+Theorem C14_Slice_PrevOne : forall ws a b j, words_ok ws -> 0 <= a <= b -> b <= 64 * zlen ws ->
+  0 <= j < b - a ->
+  SlicePrevOne ws a b j = Some (shift_down a (spec_PrevOne ws (a + j) b)).
+Proof. exact SlicePrevOne_correct. Qed.
+Print Assumptions C14_Slice_PrevOne.
+
+(** bitmap/fmt.go, the package's printer: Fmt of an integer of any of the 8 integer types prints its
+    8*size binary digits (two's complement), least significant first, in groups of 8 separated by a
+    space; the elements of a slice are separated by commas; a non-integer panics (an empty slice of
+    anything prints as "").  All integers, all slice lengths. *)
+Theorem C14_Fmt : forall kind is_slice vals, Fmt kind is_slice vals = spec_Fmt kind is_slice vals.
+Proof. exact Fmt_correct. Qed.
+Print Assumptions C14_Fmt.
+
+(** a bitmap printed by Fmt shows exactly its bit sequence: the digits of the output are [flat] *)
+Theorem C14_Fmt_bitmap : forall ws,
+  exists s, Fmt 7 true ws = Some s /\ filter is_digit s = map bitchar (flat ws).
+Proof. exact Fmt_bitmap. Qed.
+Print Assumptions C14_Fmt_bitmap.
 
 (** The pre-fix Slice returned ((to-from)+63)&^63 WORDS: 128 for the 69-bit range [1,70). *)
 Theorem C14_slice_len_refuted :
@@ -14,3 +195,75 @@ Proof.
   vm_compute. congruence.
 Qed.
 Print Assumptions C14_slice_len_refuted.
+
+(** non-vacuity, Join/Getw: width 4, three values with bits above the width that must be cut off;
+    width 32 crossing a word boundary; width 64 *)
+Example C14_Join_nonvacuous :
+  width_ok 4 /\ width_ok 32 /\ width_ok 64 /\
+  Join [0x1f; 0xf2; 0x103] 4 = Some [0x32f] /\ cdiv64 (zlen [0x1f; 0xf2; 0x103] * 4) = 1 /\
+  Getw [0x32f] 1 4 = Some 2 /\ nth 1 [0x1f; 0xf2; 0x103] 0 mod 2 ^ 4 = 2 /\
+  Join [2^32 + 5; 6; 7] 32 = Some [0x600000005; 7] /\
+  Getw [0x600000005; 7] 2 32 = Some 7 /\
+  Join [2^64 - 1; 1] 64 = Some [2^64 - 1; 1] /\
+  packed [0x1f; 0xf2] 4 = [true; true; true; true; false; true; false; false].
+Proof. vm_compute. intuition congruence. Qed.
+
+(** non-vacuity, Slice: the 69-bit range [1,70) of three words (the witness of the defect) now has
+    2 words; an empty range; an aligned full-word range *)
+Example C14_Slice_nonvacuous :
+  words_ok [1; 2; 3] /\ (0 <= 1 <= 70 /\ 70 <= 64 * zlen [1; 2; 3]) /\
+  Slice [1; 2; 3] 1 70 = Some [0; 1] /\ cdiv64 (70 - 1) = 2 /\
+  Slice [1; 2; 3] 64 66 = Some [2] /\
+  Slice [1; 2; 3] 5 5 = Some [] /\
+  Slice [1; 2; 3] 64 192 = Some [2; 3] /\
+  bitz (flat [1; 2; 3]) 65 = true.
+Proof.
+  split; [apply words_okb_ok; reflexivity|].
+  vm_compute. intuition congruence.
+Qed.
+
+(** non-vacuity, widening: table entries at the ends (the shift by 64 that wraps), reads that panic;
+    Getw inside / outside / negative, and the int32 wrap (index 2^26 of width 64 reads element 0 in Go,
+    which is why the statement needs i*w inside int32); split + Join *)
+Example C14_widen_nonvacuous :
+  mask_lookups initMasks 64 = [Some (2^64 - 1); Some 0; None; None; None; None] /\
+  mask_lookups initMasks 63 = [Some (2^63 - 1); Some (2^63); Some (2^64 - 1); Some 0; Some (2^63); Some (2^63 - 1)] /\
+  mask_lookups initMasks (-1) = [None; None; None; None; None; None] /\
+  Getw [0xa5; 7] 1 4 = Some 0xa /\ spec_Getw_any [0xa5; 7] 1 4 = Some 0xa /\
+  Getw [0xa5; 7] 32 4 = None /\ Getw [0xa5; 7] (-1) 4 = None /\
+  Getw32 [0xa5; 7] (2^26) 64 = Some 0xa5 /\ spec_Getw_any [0xa5; 7] (2^26) 64 = None /\
+  width_ok 16 /\ 64 * zlen [0xa5; 2^63 + 7] < 2^31 /\
+  SplitJoin [0xa5; 2^63 + 7] 16 = Some [0xa5; 2^63 + 7] /\
+  elements [0xa5; 2^63 + 7] 16 = [0xa5; 0; 0; 0; 7; 0; 0; 0x8000] /\
+  SliceToArray [0xa5; 2^63 + 7] 2 67 = Some [0; 3; 5; 62; 63; 64] /\
+  ones (flat [0xa5; 2^63 + 7]) = [0; 2; 5; 7; 64; 65; 66; 127].
+Proof. vm_compute. intuition congruence. Qed.
+
+(** non-vacuity, Fmt: the example of the function's doc comment, int32(0x0102) --> "01000000 10000000 …";
+    a negative int8; a two-word bitmap; the panic *)
+Example C14_Fmt_nonvacuous :
+  Fmt 4 false [0x0102] = Some [48;49;48;48;48;48;48;48; 32; 49;48;48;48;48;48;48;48; 32;
+                               48;48;48;48;48;48;48;48; 32; 48;48;48;48;48;48;48;48] /\
+  Fmt 0 false [-2] = Some [48;49;49;49;49;49;49;49] /\
+  Fmt 1 true [1; 128] = Some [49;48;48;48;48;48;48;48; 44; 48;48;48;48;48;48;48;49] /\
+  Fmt 8 false [7] = None /\ Fmt 8 true [] = Some [] /\
+  (exists s, Fmt 7 true [5; 2^63] = Some s /\ length s = 143%nat).
+Proof. vm_compute. intuition (try congruence). eexists. split; reflexivity. Qed.
+
+Example C14_laws_nonvacuous :
+  Slice [0xa5; 7] 0 128 = Some [0xa5; 7] /\
+  Slice [0xa5; 2^63 + 7] 2 127 = Some [2^63 + 2^62 + 0x29; 1] /\
+  Slice [2^63 + 2^62 + 0x29; 1] 3 70 = Slice [0xa5; 2^63 + 7] 5 72 /\
+  Slice [0xa5; 2^63 + 7] 5 72 = Some [2^61 + 2^60 + 2^59 + 5; 0] /\
+  Join [0xa5; 2^64 - 1] 64 = Some [0xa5; 2^64 - 1] /\
+  Join [1; 2; 3; 4; 5] 16 = Some [0x4000300020001; 5] /\ Slice [0x4000300020001; 5] 32 80 = Some [0x500040003] /\
+  Join [3; 4; 5] 16 = Some [0x500040003].
+Proof. vm_compute. intuition congruence. Qed.
+
+Example C14_compose_nonvacuous :
+  SliceRank64 [0xa5; 2^63 + 7] 2 127 true 63 = Some (4, 1) /\
+  rank1z (flat [0xa5; 2^63 + 7]) 65 - rank1z (flat [0xa5; 2^63 + 7]) 2 = 4 /\
+  SliceNextOne [0xa5; 2^63 + 7] 2 127 6 = Some 62 /\ spec_NextOne [0xa5; 2^63 + 7] 8 127 = 64 /\
+  SlicePrevOne [0xa5; 2^63 + 7] 2 127 6 = Some 64 /\
+  SliceNextOne [0xa5; 2^63 + 7] 8 64 0 = Some (-1).
+Proof. vm_compute. intuition congruence. Qed.
